@@ -87,6 +87,34 @@ func scenarioReval(c *vrun.Ctx) {
 			runRevalCase(c, env, scheme, hist, defaultAge)
 		}
 	}
+	// the same histories at depth 3 on a machine whose local zone is not UTC: dates the proxy puts on
+	// the wire are instants, whatever the zone of the clock they were read from
+	vtime.Local = time.FixedZone("UTC+3", 3*3600)
+	n3 := n * n * n
+	for _, scheme := range []string{"etag", "lm", "none"} {
+		for hi := 0; hi < n3; hi++ {
+			caseNo++
+			if !c.Mine(caseNo) {
+				continue
+			}
+			hist := make([]string, 3)
+			x := hi
+			gets := 0
+			for i := 2; i >= 0; i-- {
+				hist[i] = revalAlphabet[x%n]
+				x /= n
+				if hist[i][0] == 'G' {
+					gets++
+				}
+			}
+			if gets == 0 || hist[2][0] != 'G' {
+				continue
+			}
+			c.Case()
+			runRevalCase(c, env, scheme+"@utc+3", hist, defaultAge)
+		}
+	}
+	vtime.Local = nil
 	c.Res.Bounds["depth"] = p.Depth
 	c.Res.Bounds["alphabet"] = revalAlphabet
 	c.Res.Bounds["validator_schemes"] = revalSchemes
@@ -99,7 +127,7 @@ func runRevalCase(c *vrun.Ctx, env *penv, scheme string, hist []string, defaultA
 	lm0 := vtime.Peek().Add(-48 * time.Hour).Truncate(time.Second)
 	setValidators := func() {
 		res.ETag, res.LM = "", time.Time{}
-		switch scheme {
+		switch strings.TrimSuffix(scheme, "@utc+3") {
 		case "etag":
 			res.ETag = vnet.ETagFor(name, res.Version)
 		case "lm":
